@@ -15,6 +15,8 @@ import (
 	"os"
 	"os/exec"
 	"path/filepath"
+	"runtime/debug"
+	"strings"
 
 	"github.com/open-policy-agent/opa/rego"
 )
@@ -257,3 +259,42 @@ func Scope(name string) {}
 
 // WriteLog lists the recorded stores to package-level state.
 func WriteLog() []string { return nil }
+
+// Faults switches the fault flags of the environment stubs on or off (default on).
+func Faults(on bool) {}
+
+// PanicSite names the function in which the panic being recovered was raised; call it
+// from the deferred function right after recover().
+func PanicSite() string {
+	lines := strings.Split(string(debug.Stack()), "\n")
+	for i, l := range lines {
+		if !strings.HasPrefix(l, "panic(") {
+			continue
+		}
+		for j := i + 2; j < len(lines); j += 2 {
+			fn := strings.TrimSpace(lines[j])
+			if k := strings.LastIndex(fn, "("); k > 0 {
+				fn = fn[:k]
+			}
+			if strings.HasPrefix(fn, "runtime.") || strings.HasPrefix(fn, "panic") {
+				continue
+			}
+			return normSite(fn)
+		}
+	}
+	return "unknown"
+}
+
+func normSite(s string) string {
+	s = strings.NewReplacer("(*", "", "(", "", ")", "", "*", "").Replace(s)
+	if i := strings.LastIndex(s, "/"); i >= 0 {
+		s = s[i+1:]
+	}
+	if i := strings.Index(s, "$"); i >= 0 {
+		s = s[:i]
+	}
+	for strings.HasSuffix(s, ".func1") || strings.HasSuffix(s, ".1") {
+		s = s[:strings.LastIndex(s, ".")]
+	}
+	return s
+}
